@@ -26,7 +26,7 @@ TECHNIQUE = ("runtime monitoring of generated programs: every generated script i
 RULE = ("schedulers {sge,pbs,slurm} x mode {array,single} x crop state {nothing grown, some grown, all but one grown} x batch_ids {None, "
         "explicit lists of length 1..B, tuple, int} x resource spellings (hours/minutes/seconds, time= str/number, gigabytes/mem, "
         "num_procs+num_workers, extra header flags, conda_env, launcher, setup code of one or several lines, debugging) on crops of 1-8 batches named by an absolute or a relative parent directory; array scripts with workers inside a batch; plus the "
-        "xyzpy-grow command line; project directories containing a space or file-name pattern characters; one generated script with all its executions is one case; distinct by option vector; "
+        "xyzpy-grow command line; project directories containing a space or file-name pattern characters; array scripts for 12-15 batches; crop directories given as pathlib.Path; one generated script with all its executions is one case; distinct by option vector; "
         "non-trivial when >= 2 tasks are intended")
 ASSUMPTIONS = [
     "scripts are run by bash with SGE_TASK_ID / PBS_ARRAY_INDEX / SLURM_ARRAY_TASK_ID set to each index of the header's array range; scheduler directives themselves are comments to bash",
